@@ -168,7 +168,7 @@ def build(ctx):
                     # symbolic geometry: one solver query per arm (a symbolic selector over arms multiplies the cost)
                     for k, arm in enumerate(arms):
                         hs.append(P.Harness("%s_%s_%s_%s_%s_cxx%s" % (sch.ns, msg.name, lv.name, arm[0], mode, std), harness(u, g, arms, N, 0, D), [u], unwind=G + 2,
-                                            cap=ctx.q(300, 900), defines=["VERIF_WHICH=%d" % k], backends=["minisat", "kissat"], extra_flags=["--no-standard-checks"],
+                                            cap=ctx.q(600, 1200), defines=["VERIF_WHICH=%d" % k], backends=["minisat", "kissat"], extra_flags=["--no-standard-checks"],
                                             meta={"big_loops": ["ref_walk_%s.%d" % (msg.name, x) for x in range(16)]},
                                             desc="message %s.%s level %s: getter(s) of %s == byte-level reference decode at the position the wire values imply; buffer unchanged" % (sch.ns, msg.name, lv.name, arm[0]),
                                             bounds={"N": N, "G": G, "D": D, "std": "c++" + std, "build": mode, "byte_order": "BE" if sch.be else "LE"}))
@@ -176,7 +176,7 @@ def build(ctx):
                 for j in range(0, len(arms), 6):
                     chunk = arms[j:j + 6]
                     hs.append(P.Harness("%s_%s_%s_%d_%s_cxx%s" % (sch.ns, msg.name, lv.name, j // 6, mode, std), harness(u, g, chunk, N, 0, D), [u], unwind=G + 2,
-                                        cap=ctx.q(300, 900), meta={"big_loops": ["ref_walk_%s.%d" % (msg.name, k) for k in range(16)]},
+                                        cap=ctx.q(600, 1200), meta={"big_loops": ["ref_walk_%s.%d" % (msg.name, k) for k in range(16)]},
                                         desc="message %s.%s level %s: getters %s == byte-level reference decode; buffer unchanged" % (sch.ns, msg.name, lv.name, [a[0] for a in chunk]),
                                         bounds={"N": N, "G": G, "D": D, "std": "c++" + std, "build": mode, "byte_order": "BE" if sch.be else "LE"}))
     # cursor-based getters (the usual way of decoding in order) meet the same obligation from the position the member requires: same value / view as the reference decode, documented end position
@@ -196,7 +196,7 @@ def build(ctx):
                 for k, chunk in enumerate(groups):
                     nm = chunk[0][0] if dynamic else str(k)
                     hs.append(P.Harness("%s_%s_%s_cursor_%s_%s_cxx%s" % (sch.ns, msg.name, lv.name, nm, mode, std), c04.harness(uc, g, chunk, N, 0, D), [uc], unwind=G + 2,
-                                        cap=ctx.q(300, 900), backends=["minisat", "kissat"], extra_flags=["--no-standard-checks"],
+                                        cap=ctx.q(600, 1200), backends=["minisat", "kissat"], extra_flags=["--no-standard-checks"],
                                         meta={"big_loops": ["ref_walk_%s.%d" % (msg.name, x) for x in range(16)]},
                                         desc="message %s.%s level %s: cursor-based getter(s) %s (plain, init, dont_move, init_dont_move, skip) return what the reference decode gives at the reference position" % (sch.ns, msg.name, lv.name, [a[0] for a in chunk]),
                                         bounds={"N": N, "G": G, "D": D, "std": "c++" + std, "build": mode, "byte_order": "BE" if sch.be else "LE"}))
@@ -211,7 +211,7 @@ def build(ctx):
         N = g.max_size(0, 255) - 255 + 6
         for a in [x for x in dyn_arms(g, g.levels[0]) if x[0] == "data_db"]:
             hs.append(P.Harness("%s_odd_bigdata_%s_%s_cxx%s" % (sch.ns, a[0], mode, std), harness(u, g, [a], N, 0, 255), [u], unwind=4,
-                                cap=ctx.q(300, 900), backends=["minisat", "kissat"], extra_flags=["--no-standard-checks"],
+                                cap=ctx.q(600, 1200), backends=["minisat", "kissat"], extra_flags=["--no-standard-checks"],
                                 meta={"big_loops": ["ref_walk_odd.%d" % x for x in range(16)]},
                                 desc="message %s.odd: getters of the data member that follows a <data> of ANY uint8 length 0..255" % sch.ns,
                                 bounds={"N": N, "G": 1, "D": "0..255", "std": "c++" + std, "build": mode}))
